@@ -207,14 +207,13 @@ def check(an, rep, tier):
     ]
     for q, v in cases:
         r = an.run(q, 0, d, variant=v, extra_key=('dom', repr(sorted(v.items(), key=repr))))
-        raised = any(x[1] == 'ValueError' for x in r.I.raises) and \
-            not r.returns
+        from .common import dom3
+        st3, d3 = dom3(r.I.raises, r.returns, True)
         rep.add('P-domain', q, 'rejects %s' % {k: x for k, x in v.items()
                                                if isinstance(x, tuple) or
-                                               k in ('opt',)},
-                'ok' if raised else 'violation',
-                '' if raised else 'the documented ValueError is not raised '
-                'for this invalid argument combination')
+                                               k in ('opt',)}, st3,
+                '' if st3 == 'ok' else 'the documented ValueError is not '
+                'raised for this invalid argument combination (%s)' % d3)
     # inconsistent option lengths
     from ..values import LIST, FLOAT
     fn = prog.func('grid.grid_prep_opts')
@@ -222,19 +221,21 @@ def check(an, rep, tier):
     I = interp.Interp(prog, {})
     I.run_function(fn, {'a': LIST([FLOAT(), FLOAT()]),
                         'b': LIST([FLOAT(), FLOAT(), FLOAT()])})
-    raised = any(x[1] == 'ValueError' for x in I.raises) and \
-        not I.entry_returns
+    from .common import dom3
+    st3, d3 = dom3(I.raises, I.entry_returns, True)
     rep.add('P-domain', 'grid.grid_prep_opts', 'rejects a of length 2 with b '
-            'of length 3', 'ok' if raised else 'violation',
-            '' if raised else 'inconsistent option lengths are not rejected')
+            'of length 3', st3,
+            '' if st3 == 'ok' else 'inconsistent option lengths are not '
+            'rejected (' + d3 + ')')
     I = interp.Interp(prog, {})
     I.run_function(fn, {'a': LIST([FLOAT(), FLOAT(), FLOAT()]),
                         'b': LIST([FLOAT(), FLOAT()])})
-    raised = any(x[1] == 'ValueError' for x in I.raises) and \
-        not I.entry_returns
+    from .common import dom3
+    st3, d3 = dom3(I.raises, I.entry_returns, True)
     rep.add('P-domain', 'grid.grid_prep_opts', 'rejects a of length 3 with b '
-            'of length 2', 'ok' if raised else 'violation',
-            '' if raised else 'inconsistent option lengths are not rejected')
+            'of length 2', st3,
+            '' if st3 == 'ok' else 'inconsistent option lengths are not '
+            'rejected (' + d3 + ')')
     from .. import rules_proto as _RPZ
     _RPZ.check_none_vs_zero(prog, rep, modules={'grid', 'stat'})
     from .. import rules_api as _RA
